@@ -36,6 +36,7 @@ def showR1 : R1 → String
   | .int i => s!"i:{i}"
   | .bulk b => s!"b:{hexOfBytes b}"
   | .err c => s!"e:{c}"
+  | .ext _ => "ext"
 
 /-- insertion sort on key codes (canonical order of unordered replies) -/
 def sortNat (l : List Nat) : List Nat :=
